@@ -66,7 +66,7 @@ func (w *liqWorld) huntTry(app uint64, pair liqtypes.Pair, price sdk.Dec, amt sd
 
 // search a single order (direction, tick, amount) whose batch does not conserve the base coin: a tick on which
 // two or more pools have an order, consumed only in part
-func (w *liqWorld) huntStep(g *rng) bool {
+func (w *liqWorld) huntStep(g *rng) (happ, hpair, hid uint64, howner int, found bool) {
 	for _, app := range w.apps {
 		params, _ := w.k.GetGenericParams(w.ctx, app)
 		prec := int(params.TickPrecision)
@@ -163,8 +163,11 @@ func (w *liqWorld) huntStep(g *rng) bool {
 							imb, ok := w.huntTry(app, pair, t.price, amt, side.buy)
 							if ok && !imb.IsZero() {
 								w.tr.p("# hunt: app %d pair %d buy=%v price %s amount %s base imbalance %s tick %v", app, pair.Id, side.buy, t.price, amt, imb, t.amts)
-								w.placeOwn(app, pair, side.buy, t.price, amt, 10)
-								return true
+								owner := w.nextAcc
+								if id, ok := w.placeOwn(app, pair, side.buy, t.price, amt, 10); ok {
+									return app, pair.Id, id, owner, true
+								}
+								return 0, 0, 0, 0, false
 							}
 						}
 					}
@@ -174,5 +177,5 @@ func (w *liqWorld) huntStep(g *rng) bool {
 		}
 	}
 	_ = g
-	return false
+	return 0, 0, 0, 0, false
 }
